@@ -20,7 +20,7 @@ PROP_MODULES = {
     "C12": ["contracts.c12", "contracts.c12b", "contracts.c12c", "contracts.c12_bounded", "contracts.c10", "contracts.c13c"],
     "C13": ["contracts.c13", "contracts.c13b", "contracts.c13c", "contracts.c13_bounded", "contracts.c11", "contracts.c12", "contracts.c12c"],
     "C14": ["contracts.c14", "contracts.c14_bounded", "contracts.c08", "contracts.c08b", "contracts.c17", "contracts.c13", "contracts.c13c"],
-    "C06": ["contracts.c06", "contracts.c06_bounded"],
+    "C06": ["contracts.c06", "contracts.c06b", "contracts.c06_bounded"],
     "C07": ["contracts.c07", "contracts.c07_bounded", "contracts.c10", "contracts.c03"],
     "C08": ["contracts.c08", "contracts.c08b", "contracts.c15", "contracts.c12", "contracts.c15_bounded", "contracts.c13c"],
     "C15": ["contracts.c15", "contracts.c13", "contracts.c08", "contracts.c08b", "contracts.c10", "contracts.c17", "contracts.c14", "contracts.c12", "contracts.c15_bounded"],
@@ -35,7 +35,8 @@ PROP_MODULES = {
 # modules whose contracts / lemmas / stand-ins are included WHOLESALE in a property's check because the property depends on the functions
 # they cover (the property statement is end-to-end; a change in a dependency breaks it too)
 RELATED = {
-    "C01": ["contracts.c03", "contracts.c03_bounded", "contracts.c04", "contracts.c05", "contracts.c18", "contracts.c18_bounded"],
+    "C01": ["contracts.c03", "contracts.c03_bounded", "contracts.c04", "contracts.c05", "contracts.c05c", "contracts.c18", "contracts.c18_bounded", "contracts.c02", "contracts.c02_bounded"],
+    "C05": ["contracts.c01b"],
     "C06": ["contracts.c03"],
     "C08": ["contracts.c13", "contracts.c13b"],
     "C10": ["contracts.c08", "contracts.c12", "contracts.c13"],
